@@ -251,9 +251,39 @@ def r5_handle(ctx):
         ctx.ob('C16.R5', 'handle-resolves-on-closed', bool(cl), inner[0].loc(), 'awaiting the handle awaits command_outbox.closed()')
 
 
+# socket options that change what happens to data that is still unsent when the server closes a connection
+LOSSY_SOCKET_OPTIONS = {'set_linger': 'SO_LINGER: with a zero timeout close() discards unsent data and resets the connection',
+                        'set_tcp_user_timeout': 'TCP_USER_TIMEOUT: unacknowledged data is dropped after the timeout',
+                        'shutdown': 'shutdown() of the listening/accepted socket by the server before the response is flushed'}
+
+
+def r6_socket_options(ctx):
+    ctx.rule('C16.R6', 'P3 who-may-call (expected count 0, with a positive control): the runtime configures its listening sockets only with options that '
+             'do not affect how a close delivers pending data; no call to set_linger / set_tcp_user_timeout on a socket2::Socket, std or tokio '
+             'TcpListener / TcpStream anywhere in pavex::server (accepted sockets inherit the listener\'s SO_LINGER: a zero linger turns the close '
+             'at the end of a graceful shutdown into a reset that truncates the response in flight).')
+    seen = []
+    for b in ctx.fb.bodies(CR):
+        if b.is_promoted or not b.nid.startswith('pavex::server') and not b.nid.startswith('<pavex::server'):
+            continue
+        for bb, t in b.calls():
+            c = callee(t) or ''
+            if not any(k in c for k in ('socket2::', 'TcpListener', 'TcpStream', 'TcpSocket')):
+                continue
+            m = c.split('::')[-1]
+            seen.append(m)
+            if m in LOSSY_SOCKET_OPTIONS:
+                ctx.ob('C16.R6', 'socket-option|%s|%s' % (b.nid.replace('pavex::server::', ''), m), False, b.loc(bb, t),
+                       '%s calls %s — %s' % (b.nid.split('::')[-2] if b.nid.endswith('}') else b.nid.split('::')[-1], c, LOSSY_SOCKET_OPTIONS[m]))
+    ctx.floor('C16.R6', 'socket configuration calls seen in pavex::server (positive control: set_reuse_address, set_nonblocking, bind, listen, accept)', len(seen), 8)
+    ctx.ob('C16.R6', 'no-lossy-socket-option', not any(m in LOSSY_SOCKET_OPTIONS for m in seen), '',
+           'socket calls in pavex::server: %s' % sorted(set(seen)))
+
+
 def check(ctx):
     r1_acceptor(ctx)
     r2_worker(ctx)
     r3_tracked(ctx)
     r4_priority(ctx)
     r5_handle(ctx)
+    r6_socket_options(ctx)
